@@ -259,7 +259,25 @@ func c14Run(c *mon.Ctx, idx int) {
 	var text string
 	var e xgen.Expr
 	opt := &refsem.Options{}
-	if idx%3 != 0 {
+	if idx%9 == 4 {
+		// interface-keyed maps: membership and quantifiers must not depend on
+		// the order in which the keys come out
+		keyT := univ.StructOf(univ.Field{Name: "A", Type: univ.TInt})
+		keys := []*univ.Node{univ.Iface(univ.Str("alpha")), univ.Iface(univ.Struct(keyT, univ.Int(1))), univ.Iface(univ.Int(5)), univ.Iface(univ.UintOf(univ.TUint64, 1<<63)), univ.Iface(univ.Str("beta")),
+			univ.Iface(&univ.Node{T: univ.ArrayOf(1, univ.TInt), Items: []*univ.Node{univ.Int(1)}}), univ.Iface(univ.Bool(true))}
+		r.Shuffle(len(keys), func(i, j int) { keys[i], keys[j] = keys[j], keys[i] })
+		keys = keys[:2+r.Intn(len(keys)-1)]
+		var vals []*univ.Node
+		for range keys {
+			vals = append(vals, []*univ.Node{univ.Str("ok"), univ.IfaceSlice(univ.Int(1)), univ.Int(1)}[r.Intn(3)])
+		}
+		im := univ.MapNode(univ.MapOf(univ.TIface, univ.TIface), keys, vals)
+		sm := univ.MapNode(univ.MapOf(univ.TIface, univ.TIface), []*univ.Node{univ.Iface(univ.Str("a")), univ.Iface(univ.Str("b")), univ.Iface(univ.Str("c"))}, []*univ.Node{univ.Str("ok"), univ.IfaceSlice(univ.Int(1)), univ.Int(2)})
+		datum = univ.IfaceMap("im", im, "sm", sm, "name", univ.Str("n"))
+		text = []string{`alpha in im`, `"alpha" not in im`, `im contains "beta"`, `18446744073709551615 in im`, `9223372036854775808 in im`, `5 in im`, `true in im`, `zz in im`,
+			`any sm as _, v { v == "ok" }`, `all sm as k, v { v == 2 }`, `any sm as k { k == "c" }`, `any im as k, v { v == "ok" }`, `any name as x { x == 1 } or alpha in im`, `im is empty`, `any sm as k, v { "ok" in v or v == 2 }`}[r.Intn(15)]
+		c.Count("interface_keyed_map_cases")
+	} else if idx%3 != 0 {
 		// directed: quantifier over a map with mixed element outcomes
 		var keys []string
 		datum, keys = c14Datum(r)
@@ -342,7 +360,7 @@ func c14Run(c *mon.Ctx, idx int) {
 	}
 	c.Count("outcome:" + first)
 	// filters over the map's entries
-	if m := collOf(pathVal(datum, "m")); m != nil && m.T.K == univ.KMap && idx%3 != 0 {
+	if m := collOf(pathVal(datum, "m")); m != nil && m.T.K == univ.KMap && idx%3 != 0 && idx%9 != 4 {
 		ftext := []string{`f == 1`, `f != 1`, `f is empty`, `zz == 1`}[r.Intn(4)]
 		f, _ := bexpr.CreateFilter(ftext)
 		fc := map[string]int{}
@@ -440,7 +458,7 @@ func init() {
 		NumCases:    func(tier string) int { return tierN(tier, 2400, 40000) },
 		Run:         c14Run,
 		Required: func(tier string) []string {
-			return []string{"order_sensitive_cases", "filter_repetitions", "go_map_order_probes", "directed_mode:0", "directed_mode:1", "directed_mode:2", "directed_mode:3", "outcome:T", "outcome:F", "outcome:E"}
+			return []string{"order_sensitive_cases", "interface_keyed_map_cases", "filter_repetitions", "go_map_order_probes", "directed_mode:0", "directed_mode:1", "directed_mode:2", "directed_mode:3", "outcome:T", "outcome:F", "outcome:E"}
 		},
 	})
 }
